@@ -706,7 +706,7 @@ func c11Fluent(c *Ctx) {
 			}
 		}
 	}
-	c.R.Floor("C11.R5", n, 8)
+	c.R.Floor("C11.R5", n, 4) // at least one return per method (a single-exit rewrite has exactly one)
 }
 
 func c11Run(c *Ctx) {
